@@ -119,11 +119,11 @@ def sym_hits(nrec, S, fpart2=False, per_channel=False):
     specs = _hit_specs(nrec, S, fpart2, True, per_channel=per_channel)
     recs = mk_records(specs, S, True)
     if per_channel:
-        thrs = [fresh_int("thr0", 1, 7), fresh_int("thr1", 1, 7)]
+        thrs = [fresh_int("thr0", 0, 7), fresh_int("thr1", 0, 7)]
         hits = strax.find_hits(recs, min_amplitude=arrays.struct if False else _objarr(thrs), min_height_over_noise=_objarr([0, 0]))
         thr_of = lambda ch: thrs[ch]
     else:
-        thr = fresh_int("thr", 1, 7)
+        thr = fresh_int("thr", 0, 7)
         hits = strax.find_hits(recs, min_amplitude=thr, min_height_over_noise=0)
         thr_of = lambda ch: smax(thr, 0 * 0)  # threshold = max(min_amplitude, rms * 0)
     fpart = 0.5 if fpart2 else 0
@@ -443,6 +443,9 @@ def sym_twin():
 
 
 MUTANTS = [
+    dict(name="max_time only written above the running height (original defect F-C18d)", file="strax/processing/pulse_processing.py",
+         only="hits", old='                max_time = r["time"] + i * r["dt"]\n                height = x\n',
+         new='                if x > height:\n                    max_time = r["time"] + i * r["dt"]\n                height = max(x, height)\n'),
     dict(name="baseline window ignores the record length (original defect F-C18a)", file="strax/processing/pulse_processing.py",
          only="baseline", old='            w = d["data"][: min(baseline_samples, d["length"])]', new='            w = d["data"][:baseline_samples]'),
     dict(name="baseline truncated towards zero (original defect F-C18b)", file="strax/processing/pulse_processing.py",
